@@ -319,7 +319,7 @@ func TestAdjacentPairs(t *testing.T) {
 		for i := 0; i < 6; i++ {
 			posC[i] = rapid.SampledFrom(posClasses).Draw(t, fmt.Sprintf("pos%d", i))
 			negC[i] = rapid.SampledFrom(negClasses).Draw(t, fmt.Sprintf("neg%d", i))
-			u[i] = rapid.Float64Range(0, 1).Draw(t, fmt.Sprintf("u%d", i))
+			u[i] = g.F(0, 1).Draw(t, fmt.Sprintf("u%d", i))
 		}
 		bg := rapid.SampledFrom([]float64{0.5, 0.05, 1e-6, 0.6}).Draw(t, "background")
 		f := newField(c, n, r.name == "quadtree", bg)
@@ -378,13 +378,13 @@ func TestRandomFields(t *testing.T) {
 		bg := rapid.SampledFrom([]float64{0.5, 0.05, 1e-6}).Draw(t, "background")
 		f := newField(c, n, r.name == "quadtree", bg)
 		nx, ny := len(c.nodes.X), len(c.nodes.Y)
-		pneg := rapid.Float64Range(0.05, 0.95).Draw(t, "pneg")
+		pneg := g.F(0.05, 0.95).Draw(t, "pneg")
 		negs := 0
 		for i := 1; i < nx-1; i++ {
 			for j := 1; j < ny-1; j++ {
 				l := fmt.Sprintf("n%d.%d", i, j)
-				u := rapid.Float64Range(0, 1).Draw(t, l+".u")
-				if rapid.Float64Range(0, 1).Draw(t, l+".s") < pneg {
+				u := g.F(0, 1).Draw(t, l+".u")
+				if g.F(0, 1).Draw(t, l+".s") < pneg {
 					f.set(i, j, -magnitude(rapid.SampledFrom(negClasses).Draw(t, l+".c"), u))
 					negs++
 				} else {
@@ -452,7 +452,7 @@ func TestScenes(t *testing.T) {
 		cells := rapid.IntRange(4, ev.Pick(100, 200)).Draw(t, "cells")
 		h := math.Max(sz.X, sz.Y) / float64(cells)
 		margin := rapid.SampledFrom([]float64{0.02, 0.3, 1, 1.5}).Draw(t, "margin") * h
-		shift := v2.Vec{X: rapid.Float64Range(-0.5, 0.5).Draw(t, "shx") * h, Y: rapid.Float64Range(-0.5, 0.5).Draw(t, "shy") * h}
+		shift := v2.Vec{X: g.F(-0.5, 0.5).Draw(t, "shx") * h, Y: g.F(-0.5, 0.5).Draw(t, "shy") * h}
 		if rapid.Bool().Draw(t, "noshift") {
 			shift = v2.Vec{}
 		}
@@ -499,7 +499,7 @@ func TestAccuracy(t *testing.T) {
 			t.Fatalf("Circle2D: %v", err)
 		}
 		s := sdf.Transform2D(circ, sdf.Translate2d(v2.Vec{X: cx, Y: cy}))
-		frac := func(l string) float64 { return rapid.Float64Range(0, 1).Draw(t, l) }
+		frac := func(l string) float64 { return g.F(0, 1).Draw(t, l) }
 		run := func(cells int, shx, shy float64) (float64, float64, int) {
 			bb := s.BoundingBox()
 			h0 := bb.Size().X / float64(cells)
@@ -589,7 +589,7 @@ func TestStraight(t *testing.T) {
 		a := g.Angle(t, "angle")
 		nx, ny := math.Cos(a), math.Sin(a)
 		S := rapid.SampledFrom([]float64{1, 10, 100}).Draw(t, "scale")
-		off := rapid.Float64Range(-0.4, 0.4).Draw(t, "offset") * S
+		off := g.F(-0.4, 0.4).Draw(t, "offset") * S
 		cells := rapid.IntRange(4, 80).Draw(t, "cells")
 		bb := sdf.Box2{Min: v2.Vec{X: -S, Y: -S}, Max: v2.Vec{X: S, Y: S}}
 		hp := halfPlane{nx, ny, off, bb}
